@@ -25,6 +25,12 @@ impl TscTimestamp {
     #[inline]
     #[allow(unreachable_code)]
     pub fn frequency() -> Result<NonZeroU64, TscUnavailable> {
+        #[cfg(feature = "divan_verif")]
+        if let Some(frequency) = crate::verif::clock::frequency() {
+            return NonZeroU64::new(frequency)
+                .ok_or(TscUnavailable::ZeroFrequency);
+        }
+
         // Miri does not support inline assembly.
         #[cfg(miri)]
         return Err(TscUnavailable::Unimplemented);
@@ -43,6 +49,11 @@ impl TscTimestamp {
     /// Reads the timestamp counter.
     #[inline(always)]
     pub fn start() -> Self {
+        #[cfg(feature = "divan_verif")]
+        if let Some(value) = crate::verif::clock::read("start") {
+            return Self { value };
+        }
+
         #[allow(unused)]
         let value = 0;
 
@@ -58,6 +69,11 @@ impl TscTimestamp {
     /// Reads the timestamp counter.
     #[inline(always)]
     pub fn end() -> Self {
+        #[cfg(feature = "divan_verif")]
+        if let Some(value) = crate::verif::clock::read("end") {
+            return Self { value };
+        }
+
         #[allow(unused)]
         let value = 0;
 
